@@ -28,15 +28,18 @@ theorem tie_created_get_build_date_epoch : Generated.stmts_GetBuildDateEpoch =
 theorem tie_created_loop : Generated.loop_GetBuildDateEpoch =
     ["if p.BuildTime.After(bde) { bde = p.BuildTime }"] := rfl
 
-/-- `New` folds an exported non-blank SOURCE_DATE_EPOCH (parsed as a decimal int64) into the options -/
+/-- `applySourceDateEpoch` folds an exported non-blank SOURCE_DATE_EPOCH (parsed as a decimal int64) into the
+options; `New` and `NewOptions` both call it right after the loop over the options -/
 theorem tie_created_new_epoch :
     Generated.newEpochCond = "v, ok := os.LookupEnv(\"SOURCE_DATE_EPOCH\"); ok && len(strings.TrimSpace(v)) != 0" ∧
     Generated.newEpochAssigns = [("sec, err", "strconv.ParseInt(v, 10, 64)"),
-      ("bc.o.SourceDateEpoch", "time.Unix(sec, 0).UTC()")] := ⟨rfl, rfl⟩
+      ("bc.o.SourceDateEpoch", "time.Unix(sec, 0).UTC()")] ∧
+    Generated.epochAppliers = [("NewOptions", "for _, opt := range opts { ... }"),
+      ("New", "for _, opt := range opts { ... }")] := ⟨rfl, rfl, rfl⟩
 
 /-- nobody else in pkg/build, pkg/build/oci, internal/cli reads the variable -/
 theorem tie_created_readers : Generated.sourceDateEpochReaders =
-    ["build.go:GetBuildDateEpoch", "build.go:New"] := rfl
+    ["build.go:GetBuildDateEpoch", "build.go:applySourceDateEpoch"] := rfl
 
 /-- the index time: starts from the options' value, raised to every architecture's, handed to GenerateIndex -/
 theorem tie_created_multi_arch : Generated.multiArchBDE =
@@ -203,16 +206,67 @@ theorem index_undeclared_ge_images (opt : Int) (archPkgs : List (List Int)) (pkg
   exact hm.2.1 _ (List.mem_map.mpr ⟨pkgs, h, rfl⟩)
 
 /-- The full demand on the index (a build has at least one architecture): a declared SOURCE_DATE_EPOCH is its
-creation time. -/
-def IndexDeclaredWins : Prop :=
-  ∀ (n opt : Int) (archPkgs : List (List Int)), archPkgs ≠ [] → Impl.indexCreated (.value n) opt archPkgs = some n
+creation time, whatever `--build-date` says and however recent the installed packages are. -/
+def IndexDeclaredWins (indexCreated : Env → Int → List (List Int) → Option Int) : Prop :=
+  ∀ (n opt : Int) (archPkgs : List (List Int)), archPkgs ≠ [] → indexCreated (.value n) opt archPkgs = some n
 
-/-- proved part: when the build-date option is not later than the declared epoch (in particular for the default
-option 0 and a non-negative epoch) -/
-theorem index_declared_wins_partial (n opt : Int) (archPkgs : List (List Int)) (hne : archPkgs ≠ []) (h : opt ≤ n) :
-    Impl.indexCreated (.value n) opt archPkgs = some n := by
+theorem foldPkgs_const (n : Int) (l : List (List Int)) : Impl.foldPkgs n (l.map fun _ => n) = n := by
+  induction l with
+  | nil => rfl
+  | cons a as ih => simp only [List.map_cons, Impl.foldPkgs]; rw [if_neg (by omega)]; exact ih
+
+/-- **the repaired code meets it** (even without the side condition) -/
+theorem index_declared_wins : IndexDeclaredWins Impl.indexCreated := by
+  intro n opt archPkgs _
   have hf : Impl.getBuildDateEpoch true n = fun _ => n := by funext x; rfl
   simp only [Impl.indexCreated, Impl.newEpoch, Env.exported, Option.some.injEq, hf]
+  exact foldPkgs_const n archPkgs
+
+/-- the index agrees with every one of its images when a time is declared -/
+theorem index_declared_eq_images (n opt : Int) (archPkgs : List (List Int)) (pkgs : List Int) (hne : archPkgs ≠ []) :
+    Impl.indexCreated (.value n) opt archPkgs = Impl.imageCreated (.value n) opt pkgs := by
+  rw [index_declared_wins n opt archPkgs hne]; rfl
+
+/-- the whole index computation is the demand, for every environment, option and package lists -/
+theorem indexCreated_eq_spec (env : Env) (opt : Int) (archPkgs : List (List Int)) (hne : archPkgs ≠ []) :
+    Impl.indexCreated env opt archPkgs = Spec.indexCreated env opt archPkgs := by
+  cases env with
+  | value n => exact index_declared_wins n opt archPkgs hne
+  | malformed => rfl
+  | blank =>
+    have hf : Impl.getBuildDateEpoch true opt = fun _ => opt := by funext x; rfl
+    simp only [Impl.indexCreated, Impl.newEpoch, Env.exported, Spec.indexCreated, Option.some.injEq, hf]
+    exact foldPkgs_const opt archPkgs
+  | unset =>
+    simp only [Impl.indexCreated, Impl.newEpoch, Env.exported, Spec.indexCreated, Option.some.injEq]
+    apply isMax_unique (foldPkgs_isMax _ _)
+    obtain ⟨m1, m2, m3⟩ := maxOf_isMax opt archPkgs.flatten
+    refine ⟨m1, ?_, ?_⟩
+    · intro p hp
+      obtain ⟨pk, _, rfl⟩ := List.mem_map.mp hp
+      obtain ⟨_, _, a3⟩ := getBuildDateEpoch_undeclared_max opt pk
+      rcases a3 with e | e
+      · rw [e]; exact m1
+      · exact m2 _ (List.mem_flatten.mpr ⟨pk, ‹_›, e⟩)
+    · rcases m3 with e | e
+      · left; exact e
+      · right
+        obtain ⟨pk, hpk, hin⟩ := List.mem_flatten.mp e
+        refine List.mem_map.mpr ⟨pk, hpk, ?_⟩
+        obtain ⟨a1, a2, a3⟩ := getBuildDateEpoch_undeclared_max opt pk
+        have h1 := a2 _ hin
+        have h2 : Impl.getBuildDateEpoch false opt pk ≤ Spec.maxOf opt archPkgs.flatten := by
+          rcases a3 with e3 | e3
+          · rw [e3]; exact m1
+          · exact m2 _ (List.mem_flatten.mpr ⟨pk, hpk, e3⟩)
+        omega
+
+/-- the pinned computation (before F12f) met it only when the build-date option is not later than the declared
+epoch (in particular for the default option 0 and a non-negative epoch) -/
+theorem pinned_index_declared_wins_partial (n opt : Int) (archPkgs : List (List Int)) (hne : archPkgs ≠ [])
+    (h : opt ≤ n) : Pinned.indexCreated (.value n) opt archPkgs = some n := by
+  have hf : Impl.getBuildDateEpoch true n = fun _ => n := by funext x; rfl
+  simp only [Pinned.indexCreated, Impl.newEpoch, Env.exported, Option.some.injEq, hf]
   obtain ⟨h1, h2, h3⟩ := foldPkgs_isMax opt (archPkgs.map fun _ => n)
   rcases h3 with e | e
   · cases archPkgs with
@@ -222,7 +276,14 @@ theorem index_declared_wins_partial (n opt : Int) (archPkgs : List (List Int)) (
       omega
   · obtain ⟨_, _, e2⟩ := List.mem_map.mp e; exact e2.symm
 
-example : ∃ n opt archPkgs, opt ≤ n ∧ archPkgs ≠ [] ∧ Impl.indexCreated (.value n) opt archPkgs = some n :=
+/-- … and violated it otherwise: SOURCE_DATE_EPOCH=1649999999 with --build-date 2022-04-15T05:20:00Z (the witness
+corpus/oci-e2e/F12f.json): the index carried the build date -/
+theorem pinned_index_declared_wins_false : ¬ IndexDeclaredWins Pinned.indexCreated := by
+  intro h
+  have := h 1649999999 1650000000 [[1649827199, 1649999999], [1649827199, 1649999999]] (by decide)
+  revert this; decide
+
+example : ∃ n opt archPkgs, opt ≤ n ∧ archPkgs ≠ [] ∧ Pinned.indexCreated (.value n) opt archPkgs = some n :=
   ⟨1700000000, 1650000000, [[1720000000], [1600000000, 1720086400]], by decide, by decide, by decide⟩
 
 end Apko.C12.Created
